@@ -60,10 +60,15 @@ def run(ctx, proof):
         if [float(x) for x in st] != obs[1][1]["lobs"]:
             fails.append(("reset() observation differs from state",))
         sizes_seq, revealed = [], []
+        held = (st, list(obs[1][1]["lobs"]), "reset()")       # an observation the agent still holds while it asks for the mask
+        raised = None
         for episode in range(2):
+            if raised:
+                break
             if episode == 1:
                 # a second episode on the SAME environment object: nothing of the first one may leak into it
                 st2, _ = lin.reset()
+                held = (st2, [float(x) for x in st2], "the second reset()")
                 ops += [("reset", v, [float(x) for x in env.normalized_game.get_values()]), ("q_lin",)]
                 obs += [("state", envlib.observe(env)), ("lin", lin_observe(lin))]
                 if [float(x) for x in st2] != obs[-1][1]["lobs"] or any(x != 0 for x in st2):
@@ -73,6 +78,10 @@ def run(ctx, proof):
             while steps < ((2 ** n) if episode == 0 else 3) and not (lin.done and rng.random() < 0.7):
                 lmask = [bool(x) for x in lin.action_masks()]
                 allowed = [k for k, m in enumerate(lmask) if m]
+                if held is not None and [float(x) for x in held[0]] != held[1]:
+                    fails.append((f"the observation returned by {held[2]} changed when action_masks() was called afterwards "
+                                  f"(the agent reads observation, then mask, then decides)", [float(x) for x in held[0]], held[1]))
+                    held = None
                 # independent statement of the mask
                 known = env.incomplete_game.are_values_known()
                 want = [any((not known[c]) and games.popcount(c) == k for c in expl) for k in range(len(lmask))]
@@ -84,7 +93,13 @@ def run(ctx, proof):
                     break
                 k = rng.choice(allowed)
                 before_known = set(int(i) for i in np.where(known)[0])
-                res = lin.step(k)
+                try:
+                    res = lin.step(k)
+                except AssertionError as e:
+                    raised = (k, sorted(before_known), str(e)[:100])
+                    fails.append(("step with an allowed size raised AssertionError (it went for a coalition that is already known)", k))
+                    break
+                held = (res[0], [float(x) for x in res[0]], f"step({k})")
                 c = int(res[4]["chosen_coalition"])
                 a = expl.index(c)
                 if games.popcount(c) != k or c in before_known:
